@@ -50,6 +50,14 @@ CHECKS = {
   text='Hypothesis-generated feature arrays (continuous, tie-rich integer, clustered) x K x distance bounds checked against a validity predicate: equal lengths, in-range, injective on both sides, within bound and within the K-th nearest-neighbour distance.',
   note='Validity predicate only - which of several admissible pairings is returned is not constrained.',
   technique='property-based testing with a validity-predicate oracle'),
+ 'C02': dict(
+  text='Metamorphic testing over generated signals and option sets: dyadic factors +-2^k asserted bit for bit for get_next_imf, sift and (2^k>0) mask_sift on every case; real factors and time reversal asserted to 1e-6 on the prefix of IMFs whose extraction the reference model shows well conditioned (measured guard band); ratio-mode masked sifts with explicit and zero-crossing mask frequencies.',
+  note='sift_thresh (an absolute threshold) is scaled with |c|; ill-conditioned extractions are excluded from the rounding-tolerance relations and counted.',
+  technique='property-based metamorphic testing (scaling, negation, time reversal) with a measured guard band'),
+ 'C03': dict(
+  text='For generated signals and options: every cap k=1..K+2 of the classic and masked sift must be the bit-identical prefix of the uncapped run; every column must equal single (masked) IMF extraction of the externally computed residual; all five variants are run with caps below / at / above the attainable IMF count and must return finite [samples x <=cap] arrays with their documented extras.',
+  note='Peel mismatches above 1e-8 are only reported when the reference model shows the extraction well conditioned; ensembles use nprocesses=1 with a seeded RNG.',
+  technique='property-based testing with differential (peel) and metamorphic (cap-prefix) oracles'),
 }
 
 NOT_APPLICABLE = [{'property_id': p, 'reason': 'check not built yet in this round (planned with the same technique, see DESIGN.md section 2)'}
